@@ -23,6 +23,9 @@ pub mod utils;
 #[cfg(feature = "fuzz")]
 pub mod fuzz;
 
+#[cfg(feature = "verif_hooks")]
+pub mod verif;
+
 pub mod prelude {
     pub use crate::bit_field_vec;
     pub use crate::bit_vec;
